@@ -1442,7 +1442,7 @@ func (t *tr) effectWithArgs(eff string, call *ast.CallExpr) string {
 // the equivalent range statement; `X[i]` in the body stands for the loop's element (named as Spec.RangeCond["elem:X"] says, else "elem").
 func (t *tr) indexLoopAsRange(f *ast.ForStmt) (*ast.RangeStmt, bool) {
 	init, ok := f.Init.(*ast.AssignStmt)
-	if !ok || init.Tok != token.DEFINE || len(init.Lhs) != 1 || len(init.Rhs) != 1 || src(init.Rhs[0]) != "0" {
+	if !ok || init.Tok != token.DEFINE || len(init.Lhs) < 1 || len(init.Lhs) > 2 || len(init.Rhs) != len(init.Lhs) || src(init.Rhs[0]) != "0" {
 		return nil, false
 	}
 	iv, ok := init.Lhs[0].(*ast.Ident)
@@ -1457,9 +1457,24 @@ func (t *tr) indexLoopAsRange(f *ast.ForStmt) (*ast.RangeStmt, bool) {
 	if !ok || src(lc.Fun) != "len" || len(lc.Args) != 1 || !pureAccess(lc.Args[0]) {
 		return nil, false
 	}
-	post, ok := f.Post.(*ast.IncDecStmt)
-	if !ok || post.Tok != token.INC || src(post.X) != iv.Name {
-		return nil, false
+	// a second induction variable `w := e0` stepped together with the index (`i, w = i+1, w+1`) stands for `e0 + i`
+	var second *ast.Ident
+	if len(init.Lhs) == 2 {
+		second, ok = init.Lhs[1].(*ast.Ident)
+		if !ok || !pureAccess(init.Rhs[1]) {
+			return nil, false
+		}
+		post, ok := f.Post.(*ast.AssignStmt)
+		if !ok || post.Tok != token.ASSIGN || len(post.Lhs) != 2 || len(post.Rhs) != 2 ||
+			src(post.Lhs[0]) != iv.Name || src(post.Lhs[1]) != second.Name ||
+			norm(src(post.Rhs[0])) != iv.Name+"+1" || norm(src(post.Rhs[1])) != second.Name+"+1" {
+			return nil, false
+		}
+	} else {
+		post, ok := f.Post.(*ast.IncDecStmt)
+		if !ok || post.Tok != token.INC || src(post.X) != iv.Name {
+			return nil, false
+		}
 	}
 	X := lc.Args[0]
 	canon := "elem"
@@ -1467,7 +1482,44 @@ func (t *tr) indexLoopAsRange(f *ast.ForStmt) (*ast.RangeStmt, bool) {
 		canon = c
 	}
 	t.alias("idx:"+norm(src(X))+"["+iv.Name+"]", ast.NewIdent(canon))
+	if second != nil {
+		t.alias(second.Name, &ast.BinaryExpr{X: t.subst(init.Rhs[1]), Op: token.ADD, Y: ast.NewIdent(iv.Name)})
+	}
 	return &ast.RangeStmt{Key: iv, Value: ast.NewIdent(canon), Tok: token.DEFINE, X: X, Body: f.Body}, true
+}
+
+// sameModuloConversions: two condition texts are equal once integer conversions (`int64(i)` vs `i`) are dropped — which integer type
+// a counter is carried in does not change which element a test is about (overflow of an index is out of the picture).
+func sameModuloConversions(a, b string) bool {
+	strip := func(s string) string {
+		s = norm(s)
+		for _, c := range []string{"int64(", "uint64(", "int("} {
+			for {
+				i := strings.Index(s, c)
+				if i < 0 {
+					break
+				}
+				// drop `conv(` and its matching `)`
+				depth, j := 0, i+len(c)
+				for ; j < len(s); j++ {
+					if s[j] == '(' {
+						depth++
+					} else if s[j] == ')' {
+						if depth == 0 {
+							break
+						}
+						depth--
+					}
+				}
+				if j >= len(s) {
+					break
+				}
+				s = s[:i] + s[i+len(c):j] + s[j+1:]
+			}
+		}
+		return s
+	}
+	return strip(a) == strip(b)
 }
 
 // stmtEffect: the "leanVar := term" binding Spec.AppendEffect attaches to this assignment — either `x = append(x, v)` keyed
@@ -1716,7 +1768,7 @@ func (t *tr) block(b []ast.Stmt, tail string, ind string) string {
 		if is.Init != nil {
 			key = t.initKey(is.Init) + " ; " + key
 		}
-		if want, ok := lookup(t.sp.RangeCond, "cond:"+rx); !ok || norm(want) != norm(key) {
+		if want, ok := lookup(t.sp.RangeCond, "cond:"+rx); !ok || (norm(want) != norm(key) && !sameModuloConversions(want, key)) {
 			failf(s, "range loop over %s: loop test is `%s`, expected `%s`", src(x.X), key, want)
 		}
 		return "if " + c + " then\n" + ind + "  " + t.ret(r) + "\n" + ind + "else\n" + ind + t.block(rest, tail, ind)
